@@ -363,3 +363,9 @@ theorem wf_build (d : Spec.TxD) (h : Spec.WFTxD d) (hc : CapD d) : wfTx (build d
           rw [List.length_map, List.length_map]
           rw [hm] at hr
           exact wfPrunable_build _ _ _ r hr crct hty
+
+/-! ## blocks -/
+/-- the decoder's allocation-cap conditions of a block description: those of the miner transaction, and the vector of transaction hashes -/
+def CapBlockD (b : Spec.BlockD) : Prop := CapD b.miner ∧ capN b.txHashes.length sizes.key
+theorem wf_buildBlock (b : Spec.BlockD) (h : Spec.WFBlockD b) (hc : CapBlockD b) : wfBlock (buildBlock b) :=
+  ⟨h.1, wf_build b.miner h.2.1 hc.1, keyVecOK_of b.txHashes h.2.2 hc.2⟩
